@@ -30,14 +30,15 @@ theorem bool_ne_of_eq_false {b : Bool} (h : b = false) : ¬ b = true := by simp 
 
 /-! ### flush -/
 
-theorem hFlush_spec (rq : Req) (s : St) (w : WF rq s) :
-    WF rq (hFlush rq s).1 ∧ (hFlush rq s).1.headersWritten = true ∧
-      ((hFlush rq s).2 = true → (hFlush rq s).1.conn.closed = true) := by
+theorem hFlushCore_spec (rq : Req) (s : St) (w : WF rq s)
+    (hv : s.headersWritten = false → clValid s.hdrs = true) :
+    WF rq (hFlushCore rq s).1 ∧ (hFlushCore rq s).1.headersWritten = true ∧
+      ((hFlushCore rq s).2 = true → (hFlushCore rq s).1.conn.closed = true) := by
   by_cases hw : s.headersWritten = true
   · by_cases hm : (rq.method != Method.head) = true
     · rcases hcw : cWrite s.conn s.buf.flatten with ⟨c', r'⟩
-      have e : hFlush rq s = ({ s with buf := [], conn := c' }, r') := by
-        simp [hFlush, hw, hm, hcw]
+      have e : hFlushCore rq s = ({ s with buf := [], conn := c' }, r') := by
+        simp [hFlushCore, hw, hm, hcw]
       rw [e]
       have hc' : c' = (cWrite s.conn s.buf.flatten).1 := by rw [hcw]
       have hr' : r' = (cWrite s.conn s.buf.flatten).2 := by rw [hcw]
@@ -49,19 +50,19 @@ theorem hFlush_spec (rq : Req) (s : St) (w : WF rq s) :
       · obtain ⟨w1, w2⟩ := cWrite_Written rq s.conn s.buf.flatten wr
         rw [← hc'] at w1 w2; rw [← hr'] at w2
         exact ⟨⟨w.st1, w.st2, w.fin, fun h => absurd hw (bool_ne_of_eq_false h), fun _ => Or.inr w1⟩, hw, w2⟩
-    · have e : hFlush rq s = ({ s with buf := [] }, false) := by
-        simp [hFlush, hw, hm]
+    · have e : hFlushCore rq s = ({ s with buf := [] }, false) := by
+        simp [hFlushCore, hw, hm]
       rw [e]
       exact ⟨⟨w.st1, w.st2, w.fin, fun h => absurd hw (bool_ne_of_eq_false h), w.post⟩, hw, fun h => (by cases h)⟩
   · have hw' : s.headersWritten = false := by simpa using hw
     obtain ⟨fr, hok⟩ := w.pre hw'
     rcases hch : cWriteHeaders rq s.conn s.status s.hdrs
       (if (rq.method == Method.head) = true then [] else s.buf.flatten) with ⟨c', r'⟩
-    have e : hFlush rq s = ({ s with buf := [], headersWritten := true, conn := c' }, r') := by
-      simp [hFlush, hw', hch]
+    have e : hFlushCore rq s = ({ s with buf := [], headersWritten := true, conn := c' }, r') := by
+      simp [hFlushCore, hw', hch]
     rw [e]
     have hsp := cWriteHeaders_fresh rq s.conn s.status s.hdrs
-      (if (rq.method == Method.head) = true then [] else s.buf.flatten) fr hok w.st1 w.st2
+      (if (rq.method == Method.head) = true then [] else s.buf.flatten) fr hok (CLOK_of_clValid _ (hv hw')) w.st1 w.st2
       (by intro h; simp [h])
     rw [hch] at hsp
     cases r' with
@@ -71,6 +72,40 @@ theorem hFlush_spec (rq : Req) (s : St) (w : WF rq s) :
     | false =>
       have wr := hsp.2 rfl
       exact ⟨⟨w.st1, w.st2, w.fin, fun h => (by cases h), fun _ => Or.inr wr⟩, rfl, fun h => (by cases h)⟩
+
+theorem hFlush_core (rq : Req) (s : St) (h : s.headersWritten = true ∨ clValid s.hdrs = true) :
+    hFlush rq s = hFlushCore rq s := by
+  unfold hFlush
+  rcases h with h | h <;> simp [h]
+
+/-- the rejected flush: nothing changes, ValueError -/
+theorem hFlush_reject (rq : Req) (s : St) (hw : s.headersWritten = false) (hv : clValid s.hdrs = false) :
+    hFlush rq s = (s, true) := by
+  unfold hFlush
+  simp [hw, hv]
+
+/-- `flush()`: either the response is started / continued as before, or (headers unwritten, Content-Length
+    uninterpretable) the call is rejected without any effect -/
+theorem hFlush_spec (rq : Req) (s : St) (w : WF rq s) :
+    WF rq (hFlush rq s).1 ∧
+    ((hFlush rq s = (s, true) ∧ s.headersWritten = false ∧ clValid s.hdrs = false) ∨
+     ((hFlush rq s).1.headersWritten = true ∧ ((hFlush rq s).2 = true → (hFlush rq s).1.conn.closed = true))) := by
+  by_cases hr : s.headersWritten = false ∧ clValid s.hdrs = false
+  · rw [hFlush_reject rq s hr.1 hr.2]
+    exact ⟨w, Or.inl ⟨rfl, hr.1, hr.2⟩⟩
+  · have hc : s.headersWritten = true ∨ clValid s.hdrs = true := by
+      cases h1 : s.headersWritten with
+      | true => exact Or.inl rfl
+      | false =>
+        cases h2 : clValid s.hdrs with
+        | true => exact Or.inr rfl
+        | false => exact absurd ⟨h1, h2⟩ hr
+    rw [hFlush_core rq s hc]
+    obtain ⟨a, b, c⟩ := hFlushCore_spec rq s w (fun h => by
+      rcases hc with h' | h'
+      · rw [h] at h'; cases h'
+      · exact h')
+    exact ⟨a, Or.inr ⟨b, c⟩⟩
 
 /-! ### the part of `finish()` before the first flush -/
 
@@ -104,12 +139,17 @@ theorem WF_of_Pre (rq : Req) (s : St) (p : Pre rq s) : WF rq s :=
 theorem HOK_etag (rq : Req) (hrq : reqOK rq = true) (h : HMap) (hok : HOK h) : HOK (hset h nEtag rq.etagV) := by
   unfold reqOK at hrq
   simp only [Bool.and_eq_true] at hrq
-  exact HOK_hset h nEtag rq.etagV hok (by decide) hrq.2 (by decide) (fun e => absurd e (by decide))
+  exact HOK_hset h nEtag rq.etagV hok (by decide) hrq.2 (by decide)
 
 theorem HOK_autoCL (h : HMap) (hok : HOK h) (n : Nat) : HOK (hset h nCL (toDec n)) := by
   have hd : (toDec n).all isDigit = true := List.all_eq_true.mpr (toDec_digits n)
   exact HOK_hset h nCL (toDec n) hok (by decide) (digits_validValue _ hd) (by decide)
-    (fun _ => ⟨toDec_ne_nil n, hd⟩)
+
+theorem clValid_autoCL (h : HMap) (n : Nat) : clValid (hset h nCL (toDec n)) = true := by
+  unfold clValid hget hset
+  rw [norm_nCL, dget_dset_same]
+  simp only [C06.joinWith, parseDec_toDec]
+  simp
 
 theorem fpEtag_spec (rq : Req) (hrq : reqOK rq = true) (s : St) (p : Pre rq s) :
     Pre rq (fpEtag rq s) ∧ (s.status = 500 → (fpEtag rq s).status = 500) := by
@@ -154,6 +194,22 @@ theorem finishPrep_spec (rq : Req) (hrq : reqOK rq = true) (s : St) (p : Pre rq 
   obtain ⟨a1, a2⟩ := fpEtag_spec rq hrq s p
   obtain ⟨b1, b2⟩ := fpTail_spec rq (fpEtag rq s) a1
   exact ⟨b1, fun h => b2 (a2 h)⟩
+
+/-- the error page's `finish()`: status 500, no Content-Length set ⇒ the automatic one is supplied, which
+    `flush()` accepts -/
+theorem finishPrep_500_valid (rq : Req) (s : St) (h5 : s.status = 500) (hcl : dget nCL s.hdrs = none) :
+    clValid (finishPrep rq s).1.hdrs = true := by
+  rw [finishPrep_eq]
+  have e : fpEtag rq s = s := by
+    unfold fpEtag
+    have : decide (s.status = 200) = false := by rw [h5]; rfl
+    simp [this]
+  rw [e]
+  have hn : noBodyStatus s.status = false := by rw [h5]; decide
+  have hh : hhas s.hdrs nCL = false := by rw [hhas_nCL, hcl]; rfl
+  unfold fpTail
+  simp only [hn, hh, Bool.false_eq_true, if_false, Bool.not_false, if_true]
+  exact clValid_autoCL _ _
 
 /-! ### finish -/
 
@@ -212,28 +268,33 @@ theorem hFinish_spec (rq : Req) (hrq : reqOK rq = true) (s : St) (chunk : Option
     ((hFinish rq s chunk).2 = true →
       WF rq (hFinish rq s chunk).1 ∧
       ((hFinish rq s chunk).1.headersWritten = true → (hFinish rq s chunk).1.conn.closed = true) ∧
-      ((s.headersWritten = true ∨ s.status = 500) → (hFinish rq s chunk).1.headersWritten = true)) := by
+      ((s.headersWritten = true ∨ (s.status = 500 ∧ dget nCL s.hdrs = none)) →
+        (hFinish rq s chunk).1.headersWritten = true)) := by
   have w0 := WF_addBuf rq s chunk w
+  have hhd : (addBuf s chunk).hdrs = s.hdrs := by cases chunk <;> rfl
   have hst : (addBuf s chunk).status = s.status := by cases chunk <;> rfl
   have hhw : (addBuf s chunk).headersWritten = s.headersWritten := by cases chunk <;> rfl
   -- stage p
   obtain ⟨p, hp⟩ : ∃ p, p = (if (!(addBuf s chunk).headersWritten) = true then finishPrep rq (addBuf s chunk)
              else (addBuf s chunk, false)) := ⟨_, rfl⟩
-  have hpw : WF rq p.1 ∧ (p.2 = true → p.1.headersWritten = false ∧ ¬ (s.headersWritten = true ∨ s.status = 500)) := by
+  have hpw : WF rq p.1 ∧ (p.2 = true → p.1.headersWritten = false ∧
+        ¬ (s.headersWritten = true ∨ (s.status = 500 ∧ dget nCL s.hdrs = none))) ∧
+      (s.status = 500 ∧ dget nCL s.hdrs = none → p.1.headersWritten = false → clValid p.1.hdrs = true) := by
     by_cases hw : (addBuf s chunk).headersWritten = true
     · have : p = (addBuf s chunk, false) := by rw [hp]; simp [hw]
       rw [this]
-      exact ⟨w0, fun h => (by cases h)⟩
+      exact ⟨w0, fun h => (by cases h), fun _ h => by rw [hw] at h; cases h⟩
     · have hw' : (addBuf s chunk).headersWritten = false := by simpa using hw
       have : p = finishPrep rq (addBuf s chunk) := by rw [hp]; simp [hw']
       rw [this]
       obtain ⟨a, b⟩ := finishPrep_spec rq hrq _ (Pre_of_WF rq _ w0 hw')
-      refine ⟨WF_of_Pre rq _ a, fun h => ⟨a.2.2.2.1, ?_⟩⟩
+      refine ⟨WF_of_Pre rq _ a, fun h => ⟨a.2.2.2.1, ?_⟩, fun h5 _ =>
+        finishPrep_500_valid rq _ (hst.trans h5.1) (by rw [hhd]; exact h5.2)⟩
       rintro (h1 | h1)
       · rw [← hhw, hw'] at h1; cases h1
-      · have := b (hst.trans h1); rw [this] at h; cases h
+      · have := b (hst.trans h1.1); rw [this] at h; cases h
   rw [hFinish_stages rq s chunk w.fin p hp]
-  obtain ⟨wp, hp2⟩ := hpw
+  obtain ⟨wp, hp2, hp3⟩ := hpw
   by_cases h1 : p.2 = true
   · simp only [h1, if_true]
     refine ⟨fun h => (by cases h), fun _ => ⟨wp, fun h => ?_, fun h => absurd h (hp2 h1).2⟩⟩
@@ -246,7 +307,17 @@ theorem hFinish_spec (rq : Req) (hrq : reqOK rq = true) (s : St) (chunk : Option
       rw [this]; exact hw
     · rw [hhw] at hw; exact absurd h hw
   -- stage q
-  obtain ⟨wq, hqw, hqc⟩ := hFlush_spec rq p.1 wp
+  obtain ⟨wq, hq⟩ := hFlush_spec rq p.1 wp
+  rcases hq with ⟨hrej, hrw, hrv⟩ | ⟨hqw, hqc⟩
+  · -- the flush inside `finish()` was rejected: nothing has changed since stage p
+    rw [hrej]
+    simp only [if_true, Bool.false_eq_true, if_false]
+    refine ⟨fun h => (by cases h), fun _ => ⟨wp, fun h => ?_, fun h => ?_⟩⟩
+    · rw [hrw] at h; cases h
+    · exfalso
+      rcases h with h | h
+      · have := hpk h; rw [hrw] at this; cases this
+      · have := hp3 h hrw; rw [hrv] at this; cases this
   by_cases h2 : (hFlush rq p.1).2 = true
   · simp only [h2, if_true]
     exact ⟨fun h => (by cases h), fun _ => ⟨wq, fun _ => hqc h2, fun _ => hqw⟩⟩
@@ -313,7 +384,8 @@ theorem onException_spec (rq : Req) (hrq : reqOK rq = true) (s : St) (w : WF rq 
       obtain ⟨b1, b2, b3⟩ := b rfl
       have hf3 : s3.finished = false := b1.fin
       simp only [hf3, Bool.not_false, Bool.and_self, if_true]
-      exact Done_hFinish_written rq hrq s3 b1 (b3 (Or.inr hst))
+      exact Done_hFinish_written rq hrq s3 b1
+        (b3 (Or.inr ⟨hst, dget_default rq nCL (by decide) (by decide) (by decide)⟩))
 
 theorem WF_hdrs (rq : Req) (s : St) (w : WF rq s) (h' : HMap) (hok : s.headersWritten = false → HOK h') :
     WF rq { s with hdrs := h' } :=
@@ -328,16 +400,12 @@ theorem step_spec (rq : Req) (hrq : reqOK rq = true) (s : St) (op : Op) (w : WF 
     simp only [opOK, Bool.and_eq_true, decide_eq_true_eq] at hop
     exact ⟨fun h => (by cases h), fun _ => Or.inl ⟨hop.1, hop.2, w.fin, w.pre, w.post⟩⟩
   | setHeader n v =>
-    simp only [opOK, Bool.and_eq_true, bne_iff_ne, ne_eq, Bool.or_eq_true, Bool.not_eq_true',
-      List.isEmpty_eq_false_iff] at hop
+    simp only [opOK, Bool.and_eq_true, bne_iff_ne, ne_eq] at hop
     unfold step
     by_cases hv : validValue v = true
     · simp only [hv, Bool.not_true, Bool.false_eq_true, if_false]
       refine ⟨fun h => (by cases h), fun _ => Or.inl (WF_hdrs rq s w _ (fun hw => ?_))⟩
-      refine HOK_hset _ n v (w.pre hw).2 hop.1.1 hv hop.1.2 (fun e => ?_)
-      rcases hop.2 with h | h
-      · exact absurd e h
-      · exact h
+      exact HOK_hset _ n v (w.pre hw).2 hop.1 hv hop.2
     · simp only [hv, Bool.not_false, if_true]
       exact ⟨fun _ => w, fun h => (by cases h)⟩
   | addHeader n v =>
@@ -350,7 +418,7 @@ theorem step_spec (rq : Req) (hrq : reqOK rq = true) (s : St) (op : Op) (w : WF 
         exact ⟨fun _ => w, fun h => (by cases h)⟩
       · simp only [hx, if_false]
         exact ⟨fun h => (by cases h), fun _ => Or.inl (WF_hdrs rq s w _ (fun hw =>
-          HOK_hadd _ n v (w.pre hw).2 hop.1.1 hv hop.1.2 hop.2))⟩
+          HOK_hadd _ n v (w.pre hw).2 hop.1 hv hop.2))⟩
     · simp only [hv, Bool.not_false, if_true]
       exact ⟨fun _ => w, fun h => (by cases h)⟩
   | clearHeader n =>
@@ -363,7 +431,7 @@ theorem step_spec (rq : Req) (hrq : reqOK rq = true) (s : St) (op : Op) (w : WF 
     rw [if_neg (bool_ne_of_eq_false w.fin)]
     exact ⟨fun h => (by cases h), fun _ => Or.inl ⟨w.st1, w.st2, w.fin, w.pre, w.post⟩⟩
   | flush =>
-    obtain ⟨a, _, _⟩ := hFlush_spec rq s w
+    obtain ⟨a, _⟩ := hFlush_spec rq s w
     exact ⟨fun _ => a, fun _ => Or.inl a⟩
   | finish b =>
     obtain ⟨a, c⟩ := hFinish_spec rq hrq s b w
